@@ -255,7 +255,31 @@ func genNegatives(rng *rand.Rand, n int, thorough bool) []*negCase {
 		{"cyclic_extends", true, all, appendTo(
 			"service ZzA extends ZzA { void m() }",
 			"service ZzA extends ZzB { void m() }\nservice ZzB extends ZzA { void n() }",
+			"service ZzA extends ZzB { void m() }\nservice ZzB extends ZzC { void n() }\nservice ZzC extends ZzA { void o() }",
 		)},
+		// a service outside the cycle that extends into it, declared before /
+		// between / after the members of the cycle (validation walks the chain
+		// from every service in declaration order)
+		{"extends_tail_into_cycle", true, all, appendTo(
+			"service ZzLeaf extends ZzA { void l() }\nservice ZzA extends ZzB { void m() }\nservice ZzB extends ZzA { void n() }",
+			"service ZzA extends ZzB { void m() }\nservice ZzLeaf extends ZzA { void l() }\nservice ZzB extends ZzA { void n() }",
+			"service ZzA extends ZzB { void m() }\nservice ZzB extends ZzA { void n() }\nservice ZzLeaf extends ZzA { void l() }",
+			"service ZzLeaf extends ZzA { void l() }\nservice ZzA extends ZzA { void m() }",
+			"service ZzTip extends ZzLeaf { void t() }\nservice ZzLeaf extends ZzB { void l() }\nservice ZzA extends ZzB { void m() }\nservice ZzB extends ZzC { void n() }\nservice ZzC extends ZzA { void o() }",
+			"service ZzLeaf extends ZzC { void l() }\nservice ZzA extends ZzB { void m() }\nservice ZzB extends ZzC { void n() }\nservice ZzC extends ZzA { void o() }",
+		)},
+		// the cycle lives in an included file, the tail in the root (includes form
+		// a DAG, so a cycle itself cannot span files)
+		{"extends_tail_into_cycle", true, all, builder{2, func(b baseProg, k int) (map[string]string, string, string) {
+			f := clone(b)
+			if k%2 == 0 {
+				f["zz_cyc.frugal"] = "service ZzA extends ZzB { void m() }\nservice ZzB extends ZzA { void n() }\n"
+			} else {
+				f["zz_cyc.frugal"] = "service ZzLeaf extends ZzA { void l() }\nservice ZzA extends ZzB { void m() }\nservice ZzB extends ZzA { void n() }\n"
+			}
+			f[b.root] = "include \"zz_cyc.frugal\"\n" + f[b.root] + "\nservice ZzRoot extends zz_cyc.ZzA { void r() }\n"
+			return f, b.root, "cycle inside an include, tail in the root"
+		}}},
 		{"unknown_extends", true, all, appendTo(
 			"service ZzA extends NoSuchServiceZz { void m() }",
 			"service ZzA extends nosuchinclude.Base { void m() }",
@@ -500,7 +524,7 @@ func (c *c11) runNegative(nc *negCase, st *negStats) {
 	}
 	out := filepath.Join(dir, "zz_out")
 	args := []string{"-gen", nc.Target, "-out", out, nc.Root}
-	r := c.runCompiler(dir, 20*time.Second, args...)
+	r := c.runCompiler(nc.Class, dir, 20*time.Second, args...)
 	run.Eval(1)
 	text := r.Stdout + r.Stderr
 	exit := fmt.Sprint(r.ExitCode)
